@@ -2,7 +2,8 @@
    level.  In each, the engine model (escape_text from the start context) ends in the text context -- so the
    engine accepts the template and treats what follows as ordinary text -- while the WHATWG tokenizer
    specification, run over the same bytes, is somewhere else. *)
-From V Require Import lib.Base model.TContext model.TEscapeText spec.HtmlTok spec.StructureSpec.
+From V Require Import lib.Base model.TContext model.TSanitize model.TSanitizers model.TTree model.TEscapeText
+     model.TEscaper spec.HtmlTok spec.StructureSpec props.C01.
 Local Open Scope N_scope.
 
 Definition end_state (s : bytes) : option state :=
@@ -55,4 +56,107 @@ Lemma C01_D1_outputs :
   = ([KStart (B "b") [] false; KEnd (B "b"); KStart (B "b") [B "onmouseover"] false; KEnd (B "b")], SData) /\
   c01_pair_verdict (B "<b >k</b><b zq>z</b>") (B "<b >k</b><b onmouseover=alert(1)>z</b>")
   = Some (B "structure_changed_by_data").
+Proof. vm_compute. repeat split; reflexivity. Qed.
+
+(* ------------------------------------------------------------------ D1 refutes the whole-template statement
+   The template set of findings/C01.json, as parsed by text/template (node ids as the harness numbers
+   them):   define open = <b      define X = template open, >k</b>, template open, action .A, >z</b>
+   main = template X.   The model analysis accepts it (the second call of open takes the memoised INPUT
+   context, text), the only control path has the segments below, and the two control-equivalent
+   executions with the values zq and onmouseover=alert(1) differ in an attribute name. *)
+Definition dot_pipe : pipe := mkpipe [] [[ADot]].
+Definition field_A : pipe := mkpipe [] [[AField [B "A"]]].
+Definition d1_open : tree := [NText 0 (B "<b ")].
+Definition d1_X : tree :=
+  [NTemplate 0 (B "open") None; NText 1 (B ">k</b>"); NTemplate 2 (B "open") None; NAction 3 field_A; NText 4 (B ">z</b>")].
+Definition d1_main : tree := [NTemplate 0 (B "X") (Some dot_pipe)].
+Definition d1_trees : list (bytes * tree) := [ (B "X", d1_X); (B "main", d1_main); (B "open", d1_open) ].
+Definition d1_esc : escaper :=
+  match escape_tree (ns_of_trees d1_trees) 400 ctx0 (B "main") esc_empty with
+  | AOk (_, _, e) => e
+  | APanic _ => esc_empty
+  end.
+Definition d1_segs : list seg :=
+  [SegStatic (B "<b "); SegStatic (B ">k</b>"); SegStatic (B "<b "); SegAct [N_sanitizeHTML]; SegStatic (B ">z</b>")].
+
+Lemma d1_accepted : accepted d1_trees (B "main") d1_esc.
+Proof. exists ctx0, (B "main"). split; [vm_compute; reflexivity | split; reflexivity]. Qed.
+
+Lemma d1_path : path_list (ns_of_trees d1_trees) d1_esc (B "main") d1_main d1_segs.
+Proof.
+  set (ns := ns_of_trees d1_trees).
+  assert (Hopen : forall tn id, ekey_lookup (tn, id) (e_template_edits d1_esc) = None).
+  { intros. vm_compute. reflexivity. }
+  assert (Popen : forall tn id p, path_node ns d1_esc tn (NTemplate id (B "open") p) [SegStatic (B "<b ")]).
+  { intros tn id p. eapply (CPTemplate ns d1_esc tn id (B "open") p d1_open).
+    - cbv zeta. rewrite Hopen. vm_compute. reflexivity.
+    - cbv zeta. rewrite Hopen. unfold d1_open.
+      apply (CPCons ns d1_esc (B "open") (NText 0 (B "<b ")) [] [SegStatic (B "<b ")] []); [|constructor].
+      pose proof (CPText ns d1_esc (B "open") 0%nat (B "<b ")) as P.
+      replace (ekey_lookup (B "open", 0%nat) (e_text_edits d1_esc)) with (@None bytes) in P by (vm_compute; reflexivity).
+      exact P. }
+  unfold d1_main, d1_segs.
+  apply (CPCons ns d1_esc (B "main") _ [] d1_segs []); [|constructor].
+  eapply (CPTemplate ns d1_esc (B "main") 0%nat (B "X") (Some dot_pipe) d1_X).
+  - cbv zeta. rewrite Hopen. vm_compute. reflexivity.
+  - cbv zeta. rewrite Hopen. unfold d1_X, d1_segs.
+    apply (CPCons ns d1_esc (B "X") _ _ [SegStatic (B "<b ")] _ (Popen _ _ _)).
+    apply (CPCons ns d1_esc (B "X") _ _ [SegStatic (B ">k</b>")]).
+    { pose proof (CPText ns d1_esc (B "X") 1%nat (B ">k</b>")) as P.
+      replace (ekey_lookup (B "X", 1%nat) (e_text_edits d1_esc)) with (@None bytes) in P by (vm_compute; reflexivity).
+      exact P. }
+    apply (CPCons ns d1_esc (B "X") _ _ [SegStatic (B "<b ")] _ (Popen _ _ _)).
+    apply (CPCons ns d1_esc (B "X") _ _ [SegAct [N_sanitizeHTML]]).
+    { apply CPAction; [reflexivity | vm_compute; reflexivity]. }
+    apply (CPCons ns d1_esc (B "X") _ _ [SegStatic (B ">z</b>")] []); [|constructor].
+    pose proof (CPText ns d1_esc (B "X") 4%nat (B ">z</b>")) as P.
+    replace (ekey_lookup (B "X", 4%nat) (e_text_edits d1_esc)) with (@None bytes) in P by (vm_compute; reflexivity).
+    exact P.
+Qed.
+
+Lemma C01_structure_refuted : ~ C01_structure_full_statement.
+Proof.
+  intros H.
+  specialize (H d1_trees (B "main") d1_esc d1_main d1_segs
+                [VStr (B "zq")] [VStr (B "onmouseover=alert(1)")]
+                (B "<b >k</b><b zq>z</b>") (B "<b >k</b><b onmouseover=alert(1)>z</b>")
+                d1_accepted).
+  destruct H as (Hs & _).
+  - vm_compute. reflexivity.
+  - exact d1_path.
+  - constructor; [left; split; reflexivity | constructor].
+  - vm_compute. reflexivity.
+  - vm_compute. reflexivity.
+  - assert (E : same_structure (B "<b >k</b><b zq>z</b>") (B "<b >k</b><b onmouseover=alert(1)>z</b>") = false)
+      by (vm_compute; reflexivity).
+    vm_compute in Hs. discriminate Hs.
+Qed.
+Print Assumptions C01_structure_refuted.
+
+(* ------------------------------------------------------------------ D43: a tag name continued by what follows the text node
+   After the text node <td the engine is in the tag context of element td; the text title=[dq] of the
+   branch that follows is an attribute name and the action is accepted in its quoted value.  The bytes
+   written are <tdtitle=[dq]...: for the tokenizer the value is inside the TAG NAME, and a space in
+   the value starts an attribute. *)
+Definition d43_after_name : option (state * bytes) :=
+  match escape_text false ctx0 (B "<td") with EOk c _ _ => Some (c_state c, c_elem c) | EPanic => None end.
+Definition d43_in_value : option (state * delim * bytes * bytes) :=
+  match escape_text false ctx0 (B "<td") with
+  | EOk c _ _ =>
+      match escape_text false c (B "title=" ++ [34]) with
+      | EOk c1 _ _ => Some (c_state c1, c_delim c1, c_elem c1, c_attr c1)
+      | EPanic => None
+      end
+  | EPanic => None
+  end.
+
+Lemma C01_D43_witness :
+  d43_after_name = Some (StTag, B "td") /\
+  d43_in_value = Some (StAttr, DDoubleQuote, B "td", B "title") /\
+  ends_in_tag_name (B "<td") = true /\
+  skel (B "<tdtitle=" ++ [34] ++ B "zq" ++ [34] ++ B ">k</td>")
+  = ([KStart (B "tdtitle=" ++ [34] ++ B "zq" ++ [34]) [] false; KEnd (B "td")], SData) /\
+  skel (B "<tdtitle=" ++ [34] ++ B "x onmouseover=alert(1)" ++ [34] ++ B ">k</td>")
+  = ([KStart (B "tdtitle=" ++ [34] ++ B "x") [B "onmouseover"] false; KEnd (B "td")], SData) /\
+  placement_ok (B "<tdtitle=" ++ [34] ++ B "zq" ++ [34] ++ B ">k</td>") [(10, 2)]%nat = false.
 Proof. vm_compute. repeat split; reflexivity. Qed.
